@@ -4,6 +4,7 @@ import (
 	"bytes"
 	"fmt"
 	"hash/fnv"
+	"os"
 	"sync"
 	"sync/atomic"
 
@@ -17,15 +18,16 @@ import (
 
 // dbCase: one random program; it is regenerated from the seed and run under every filter setting.
 type dbCase struct {
-	Kind        string `json:"kind"`
-	Seed        uint64 `json:"seed"`
-	NOps        int    `json:"nops"`
-	KeySpace    int    `json:"key_space"`
-	WriteBuffer int    `json:"write_buffer"`
-	BlockSize   int    `json:"block_size"`
-	Lg          int    `json:"filter_base_lg"`
-	TableSize   int    `json:"table_size"`
-	NoCache     bool   `json:"no_block_cache"`
+	Kind           string `json:"kind"`
+	Seed           uint64 `json:"seed"`
+	NOps           int    `json:"nops"`
+	KeySpace       int    `json:"key_space"`
+	WriteBuffer    int    `json:"write_buffer"`
+	BlockSize      int    `json:"block_size"`
+	Lg             int    `json:"filter_base_lg"`
+	TableSize      int    `json:"table_size"`
+	NoCache        bool   `json:"no_block_cache"`
+	NoLargeBatchTx bool   `json:"disable_large_batch_transaction"`
 }
 
 // counting wraps a policy and counts how often it is consulted and how often it rejects.
@@ -70,12 +72,13 @@ func (g *hashSetGen) Generate(b filter.Buffer) {
 	g.hs = g.hs[:0]
 }
 
-const nSettings = 7
+const nSettings = 8
 
 var settingNames = [nSettings]string{"no filter", "bloom 1", "bloom 10", "bloom 64",
 	"written with bloom 10, reopened with it only in AltFilters, then with none",
 	"written under a policy of another name, reopened with bloom 12 (+ the old one in AltFilters), alternating",
-	"a non-bloom policy (hash set)"}
+	"a non-bloom policy (hash set)",
+	"alternating between the hash-set policy and bloom 10 without AltFilters (tables of the other policy must be read unfiltered)"}
 
 // filterSetting: the Filter / AltFilters of setting cfg in the phase-th incarnation of the DB.
 func filterSetting(cfg, phase int, cnt counting) (filter.Filter, []filter.Filter) {
@@ -103,8 +106,13 @@ func filterSetting(cfg, phase int, cnt counting) (filter.Filter, []filter.Filter
 			return w(otherName{filter.NewBloomFilter(5)}), []filter.Filter{w(filter.NewBloomFilter(3))}
 		}
 		return w(filter.NewBloomFilter(12)), []filter.Filter{w(otherName{filter.NewBloomFilter(9)})}
-	default:
+	case 6:
 		return w(hashSet{}), nil
+	default:
+		if phase%2 == 0 {
+			return w(hashSet{}), nil
+		}
+		return w(filter.NewBloomFilter(10)), nil
 	}
 }
 
@@ -207,7 +215,8 @@ func runProgram(dc dbCase, ops []dbOp, cfg int, cnt counting) (obs []string, err
 		f, alt := filterSetting(cfg, phase, cnt)
 		o := &opt.Options{Filter: f, AltFilters: alt, WriteBuffer: dc.WriteBuffer, BlockSize: dc.BlockSize, FilterBaseLg: dc.Lg,
 			CompactionTableSize: dc.TableSize, Compression: opt.NoCompression, NoSync: true, DisableSeeksCompaction: false,
-			OpenFilesCacheCapacity: 8}
+			DisableLargeBatchTransaction: dc.NoLargeBatchTx,
+			OpenFilesCacheCapacity:       8}
 		if dc.NoCache {
 			o.DisableBlockCache = true
 		}
@@ -357,6 +366,18 @@ func checkDB(c *ctx, dc dbCase) {
 				if len(b) > 300 {
 					b = b[:300] + "..."
 				}
+				if os.Getenv("C16_DBDEBUG") != "" {
+					for x := 0; x < nSettings; x++ {
+						fmt.Fprintf(os.Stderr, "setting %d: %s\n", x, all[x][i])
+					}
+					lo := i - 40
+					if lo < 0 {
+						lo = 0
+					}
+					for j := lo; j <= i; j++ {
+						fmt.Fprintf(os.Stderr, "op %d %s -> %.80s\n", j, ops[j], all[0][j])
+					}
+				}
 				c.res.Violate(fmt.Sprintf("operation %d %s answers differently under filter setting %q: %q, without filter: %q", i, ops[i], settingNames[cfg], b, a), dc)
 				return
 			}
@@ -369,19 +390,20 @@ func checkDB(c *ctx, dc dbCase) {
 }
 
 func runDB(c *ctx, r *vlib.RNG) []string {
-	n := 14
-	if c.a.Thorough() {
-		n = 1200
-	}
+	n := c.budget().dbN
 	var jobs []dbCase
 	for i := 0; i < n; i++ {
 		dc := dbCase{Kind: "db", Seed: r.Uint64(), NOps: r.Range(300, 1500), KeySpace: []int{8, 40, 200, 1000}[r.Intn(4)],
 			WriteBuffer: []int{1 << 10, 4 << 10, 16 << 10}[r.Intn(3)], BlockSize: []int{64, 256, 1024, 4096}[r.Intn(4)],
-			Lg: []int{0, 3, 5, 8, 11}[r.Intn(5)], TableSize: []int{2 << 10, 8 << 10, 64 << 10}[r.Intn(3)], NoCache: r.Chance(1, 3)}
+			Lg: []int{0, 3, 5, 8, 11}[r.Intn(5)], TableSize: []int{2 << 10, 8 << 10, 64 << 10}[r.Intn(3)], NoCache: r.Chance(1, 3),
+			// batches larger than the write buffer would otherwise take the transaction path, whose
+			// lost-write defect (unrelated to filters) makes the same program answer differently from run
+			// to run even without any filter
+			NoLargeBatchTx: true}
 		jobs = append(jobs, dc)
 	}
 	var wg sync.WaitGroup
-	sem := make(chan struct{}, 4)
+	sem := make(chan struct{}, 3)
 	for _, dc := range jobs {
 		wg.Add(1)
 		sem <- struct{}{}
